@@ -602,25 +602,42 @@ func TestVerif_C14(t *testing.T) {
 					return
 				}
 				shClosed = true
-				// the persisted state the stopped shard leaves behind is what the read-only
-				// period starts from: the restarted shard is in mode m from its very first moment
-				// (its background workers start inside Init, before Init returns)
-				if stopped, err = env.snapshot(); err != nil {
-					r.Inconclusive(fmt.Sprintf("case %d: snapshot of the stopped shard: %v", ci, err))
-					_ = os.RemoveAll(dir)
-					return
+				// First start in the configured mode with a GC timer that never fires: start-up
+				// itself (Open+Init, e.g. the metabase's counter synchronisation) is outside the
+				// statement.  The snapshot taken after it is the state the read-only period starts
+				// from.  Then the read-only shard is stopped and started once more in the same
+				// configured mode with the case's GC timer: its background workers start inside
+				// Init, so whatever they do before Init returns is compared with that snapshot too.
+				restart := func(timer bool) bool {
+					var oerr error
+					if r.Guard(desc, func() { oerr = env.open(timer, WithMode(m)) }) {
+						violated = true
+						return false
+					}
+					if oerr != nil {
+						r.Inconclusive(fmt.Sprintf("case %d: restart with configured mode %s: %v", ci, m, oerr))
+						violated = true
+						return false
+					}
+					sh, shClosed = env.sh, false
+					return true
 				}
-				var oerr error
-				if r.Guard(desc, func() { oerr = env.open(realTimer, WithMode(m)) }) {
+				if !restart(false) {
+					break
+				}
+				var err error
+				if stopped, err = env.snapshot(); err == nil {
+					err = sh.Close()
+					shClosed = true
+				}
+				if err != nil {
+					r.Inconclusive(fmt.Sprintf("case %d: snapshot/stop of the shard started in configured mode: %v", ci, err))
 					violated = true
 					break
 				}
-				if oerr != nil {
-					r.Inconclusive(fmt.Sprintf("case %d: restart with configured mode %s: %v", ci, m, oerr))
-					_ = os.RemoveAll(dir)
-					return
+				if !restart(realTimer) {
+					break
 				}
-				sh, shClosed = env.sh, false
 				r.Count("entries_by_restart_with_configured_mode", 1)
 			} else {
 				if r.Guard(desc, func() { serr = sh.SetMode(m) }) {
@@ -675,7 +692,7 @@ func TestVerif_C14(t *testing.T) {
 			if stopped != nil {
 				r.Count("snapshot_comparisons", 1)
 				for _, c := range vf14Diff(stopped, s0) {
-					r.Violation(fmt.Sprintf("state-changed|%s|entry=%s|write-cache=%v|%s", m, how, withWC, c.comp), fmt.Sprintf("persisted %s state changed (%s) between the stop of the shard and the end of its start-up in configured mode %s: %s", c.comp, c.shape, m, c.detail), desc)
+					r.Violation(fmt.Sprintf("state-changed|%s|entry=%s|write-cache=%v|%s", m, how, withWC, c.comp), fmt.Sprintf("persisted %s state changed (%s) over a stop and start of a shard that was already running in configured mode %s: %s", c.comp, c.shape, m, c.detail), desc)
 					r.Seen("state_change_shapes", c.comp+"|"+c.shape)
 					r.Count("state_changes_reported", 1)
 				}
